@@ -29,6 +29,7 @@ def cell_list(tier):
             dict(target="halfgauss_reflective", kernel="tpcn", resample="mult", clustering=False),
             dict(target="gauss", kernel="tpcn", resample="syst", clustering=False, arm="crash_resume"),
             dict(target="gauss", kernel="rwm", resample="mult", clustering=False, arm="pool"),
+            dict(target="gauss", kernel="tpcn", resample="mult", clustering=False, vv=0.04),
         ]
     else:
         for tgt in ("corr", "bimodal", "expedge", "halfgauss_hard", "vonmises_periodic", "halfgauss_reflective"):
@@ -40,6 +41,8 @@ def cell_list(tier):
             for arm in ("crash_resume", "pool", "vector"):
                 cells.append(dict(target="gauss", kernel=k, resample="mult", clustering=False, arm=arm))
                 cells.append(dict(target="bimodal", kernel=k, resample="syst", clustering=True, arm=arm))
+            cells.append(dict(target="gauss", kernel=k, resample="mult", clustering=False, vv=0.04))
+            cells.append(dict(target="corr", kernel=k, resample="syst", clustering=True, vv=0.1))
     return cells
 
 
@@ -62,7 +65,7 @@ def run_case(case):
 
         return E.replay_cell(case, sys.modules[__name__], which, PROP)
     r = E.run_single(case)
-    r["sample"] = dict(cell=case["cell"], N=case["N"], estimands={k: round(v, 4) for k, v in (r["est"] or {}).items() if which(k)})
+    r["sample"] = dict(cell=case["cell"], N=case["N"], estimands={k: round(v, 4) for k, v in (r["est"] or {}).items() if which(k) and "@" not in k})
     r["distinct_key"] = r["cellid"] + f"/N{case['N']}"
     return r
 
